@@ -1,33 +1,25 @@
-# Per-property configuration for ./check: which engine package holds the property test,
-# how many rapid cases per shard and how many shards per tier, generator-health floors,
-# and the evidence texts (rule, assumptions).
+# Per-property configuration for ./check lives in props.d/<ID>.json:
+#   pkg          engine package under harness/ holding TestProp_<ID>
+#   exh          optional name of an extra (exhaustive / sweep) test run in shard 0
+#   quick / thorough: {"checks": rapid cases per shard, "shards": n, "timeout": seconds, "steps": optional}
+#   floors       generator-health floors per tier (nontrivial_frac, classes_min, overloaded_max_frac)
+#   crash_is_violation: the property promises "no panic/crash": a dead test binary with a journalled case is a violation
+#   aux          auxiliary binaries to build: {"name": {"kind": "harness", "pkg": "cmd/x"} | {"kind": "repo-plugin", "dir": "plugins/x"}}
+#   rule, assumptions, technique, level_text, level_note: evidence / manifest texts
+import glob
+import json
+import os
 
 COMMON_ASSUME = [
     "the harness is linked against the repository's current working tree (replace => /repo), rebuilt on every run",
     "absence of violations is not established: this is generated-input search, evidence lists what was explored",
 ]
 
-PROPS = {
-    "C14": {
-        "pkg": "codec",
-        "exh": "TestExh_C14",
-        "quick": {"checks": 30000, "shards": 1, "timeout": 300},
-        "thorough": {"checks": 200000, "shards": 16, "timeout": 1500},
-        "rule": "rapid-generated conversion cases (OCI<->NRI resources, mounts, devices, hooks, env, namespaces, "
-                "Copy with per-field mutation of the copy and of the original, optional constructors per argument form, "
-                "removal-marker helpers, mask Set/Clear/IsSet laws) plus the exhaustive sweep of all 8192 event masks; "
-                "a case is non-trivial when its input has an optional set to its zero value, a nil next to a populated "
-                "optional/section, an empty collection, or (masks) a non-empty mask; distinct = distinct 64-bit hash of the case JSON",
-        "assumptions": COMMON_ASSUME + [
-            "env entries without '=' are not valid OCI environment entries and are not generated",
-            "struct-nil and all-fields-nil memory/cpu sections are treated as equal (ToOCI always allocates both)",
-            "cross-sign optional constructor arguments are only drawn from values both types can hold",
-        ],
-        "floors": {"quick": {"nontrivial_frac": 0.2}, "thorough": {"nontrivial_frac": 0.2}},
-        "technique": "property-based testing (rapid): round-trip and copy-independence oracles over generated values; exhaustive enumeration of the 8192 event masks",
-        "level_text": "generated-input search: every conversion pair is checked as a round trip on the fields both sides carry, Copy() by mutating each reachable pointer/slice/map entry of copy and original, each optional constructor per argument form; the event-mask print/parse round trip is enumerated exhaustively. Exploration level: inputs are sampled (except the masks).",
-        "level_note": "trusts encoding/json for replay files and the harness's canonical renderers; compares only fields both representations carry",
-    },
-}
+PROPS = {}
+for _f in sorted(glob.glob(os.path.join(os.path.dirname(os.path.abspath(__file__)), "props.d", "C*.json"))):
+    _c = json.load(open(_f))
+    _c["assumptions"] = COMMON_ASSUME + _c.get("assumptions", [])
+    PROPS[os.path.basename(_f)[:-5]] = _c
 
+# properties that are deliberately not claimed, with the reason (none so far)
 NOT_APPLICABLE = {}
